@@ -83,7 +83,11 @@ def float_state(models, probes):
     return vals, rec, pr
 
 
-def history(rng, n, npt, m_ub, m_eq, length, max_cond=1e6):
+class ImplCrash(Exception):
+    pass
+
+
+def _history(rng, n, npt, m_ub, m_eq, length, max_cond=1e6):
     """returns dict with the driver request line and, per op, the float side observations; None if the
     geometry degenerated at the start"""
     models, fs, options, pb = make_models(rng, n, npt, m_ub, m_eq)
@@ -100,8 +104,12 @@ def history(rng, n, npt, m_ub, m_eq, length, max_cond=1e6):
     obs = [("I", float_state(models, []), cond_of(models), None)]
     conds = [cond_of(models)]
     kinds = {"U": 0, "S": 0, "R": 0, "P": 0}
-    for _ in range(length):
-        r = rng.random()
+    # random operations, then a fixed tail: replacement, reset, probe, shift, probe (so that every history
+    # checks a rebuilt model and a shifted model at a probe point)
+    draws = [None] * length + [0.0, 0.8, 0.9, 0.7, 0.9]
+    for r in draws:
+        if r is None:
+            r = rng.random()
         if r < 0.6:
             # replacement: arbitrary index, new point within a few radii, set kept well conditioned
             for _try in range(8):
@@ -124,7 +132,10 @@ def history(rng, n, npt, m_ub, m_eq, length, max_cond=1e6):
             vals = [f(xnew) for f in fs]
             with warnings.catch_warnings():
                 warnings.simplefilter("ignore")
-                models.update_interpolation(k, xnew, float(vals[0]), np.array(vals[1:1 + m_ub], float), np.array(vals[1 + m_ub:], float))
+                try:
+                    models.update_interpolation(k, xnew, float(vals[0]), np.array(vals[1:1 + m_ub], float), np.array(vals[1 + m_ub:], float))
+                except Exception as exc:  # noqa
+                    raise ImplCrash(f"update_interpolation raised {type(exc).__name__}: {exc}")
             if xpt_rows(models) != Xn:
                 return None     # geometry not exact in binary64: drop the history
             parts += [f"U {k}", exact.rl(frs(xnew)), exact.rl(frs(vals)), " ".join(exact.rl(r) for r in Wn)]
@@ -134,7 +145,10 @@ def history(rng, n, npt, m_ub, m_eq, length, max_cond=1e6):
         elif r < 0.75:
             k = int(rng.integers(npt))
             nb = np.copy(I.point(k))
-            models.shift_x_base(nb, options)
+            try:
+                models.shift_x_base(nb, options)
+            except Exception as exc:  # noqa
+                raise ImplCrash(f"shift_x_base raised {type(exc).__name__}: {exc}")
             parts += ["S", exact.rl(frs(nb))]
             obs.append(("S", float_state(models, []), cond_of(models), {"k": k}))
             kinds["S"] += 1
@@ -144,7 +158,10 @@ def history(rng, n, npt, m_ub, m_eq, length, max_cond=1e6):
                 continue
             with warnings.catch_warnings():
                 warnings.simplefilter("ignore")
-                models.reset_models()
+                try:
+                    models.reset_models()
+                except Exception as exc:  # noqa
+                    raise ImplCrash(f"reset_models raised {type(exc).__name__}: {exc}")
             parts += ["R", " ".join(exact.rl(r) for r in Wn)]
             obs.append(("R", float_state(models, []), cond_of(models), None))
             kinds["R"] += 1
@@ -155,6 +172,14 @@ def history(rng, n, npt, m_ub, m_eq, length, max_cond=1e6):
             kinds["P"] += 1
     return {"line": f"quad {n} {npt} {nfun} | " + " ; ".join(parts), "obs": obs, "n": n, "npt": npt, "nfun": nfun,
             "max_cond": max(conds), "kinds": kinds, "models": models}
+
+
+def history(rng, n, npt, m_ub, m_eq, length, max_cond=1e6):
+    """as _history; an exception raised by the implementation on a valid operation is returned as {"crash": text}"""
+    try:
+        return _history(rng, n, npt, m_ub, m_eq, length, max_cond)
+    except ImplCrash as exc:
+        return {"crash": str(exc)}
 
 
 def parse_answer(ans, nfun):
